@@ -1257,6 +1257,7 @@ func (fr *Frame) backEdge(from *ssa.BasicBlock, li *loopInfo, st *State) {
 	for _, c := range fr.autoInvs(li) {
 		fx.oblige("inv-pres", fmt.Sprintf("%s/inv-pres/loop%d/auto:%s", name, li.ordinal, c.label), c.text, st, c.eval(st), b.Instrs[0].Pos(), nil)
 	}
+	fx.s.goal(func() {
 	if fr.fc != nil {
 		for _, c := range fr.fc.Steps[li.ordinal] {
 			fx.s.goal(func() {
@@ -1264,7 +1265,16 @@ func (fr *Frame) backEdge(from *ssa.BasicBlock, li *loopInfo, st *State) {
 				t := fr.evalClause(c, st, li)
 				fr.evalAt = nil
 				fx.oblige("inv-pres", fmt.Sprintf("%s/step/loop%d/%s", name, li.ordinal, c.Label), c.Text, st, t, b.Instrs[0].Pos(), fr.props())
-				if len(t) < 20000 {
+				// as a lemma for the later clauses of this back edge the clause is used in its assumed form (the
+				// well-formedness facts of the memory it reads are conjuncts there, not hypotheses)
+				fx.assumeMode = true
+				fr.evalAt = from
+				ta, okA := fx.tryClause(fr, c, st, li)
+				fr.evalAt = nil
+				fx.assumeMode = false
+				if okA && len(ta) < 30000 {
+					fx.hyps = append(fx.hyps, ta)
+				} else if len(t) < 20000 {
 					fx.hyps = append(fx.hyps, t)
 				}
 			})
@@ -1279,6 +1289,7 @@ func (fr *Frame) backEdge(from *ssa.BasicBlock, li *loopInfo, st *State) {
 		})
 	}
 	fr.visitedMode = 0
+	})
 	fx.hyps = nil
 	fx.headMarkForHyps = 0
 	// vacuity guard: this back edge is reachable under everything assumed so far
@@ -2241,6 +2252,20 @@ func (fr *Frame) execTypeAssert(x *ssa.TypeAssert, st *State) {
 	v := fx.s.define(x.Name(), fx.tm.sortOf(x.AssertedType), val)
 	fx.assumeOld(st, x.AssertedType, v)
 	fr.env[x] = Val{t: v}
+}
+
+func (fx *FnCtx) tryClause(fr *Frame, c *Clause, st *State, li *loopInfo) (t Term, ok bool) {
+	savedQuant := fx.s.inQuant
+	defer func() {
+		if r := recover(); r != nil {
+			if _, isUns := r.(*UnsupportedError); !isUns {
+				panic(r)
+			}
+			fx.s.inQuant = savedQuant
+			ok = false
+		}
+	}()
+	return fr.evalClause(c, st, li), true
 }
 
 // ---------------------------------------------------------------------------------------------
